@@ -144,6 +144,59 @@ v("b53-repair-jobids-else", ["C09"], "None test with explicit else",
   (P, "        if job_ids is None:\n            job_ids = self._find_job_ids()\n\n        # Load internal cache", "        if job_ids is not None:\n            job_ids = list(job_ids)\n        else:\n            job_ids = self._find_job_ids()\n\n        # Load internal cache"))
 
 
+# ---- variants for the rules added after round 4
+v("b54-exclude-trim-private-copy", ["C13", "C15"], "sync_jobs trims its own (private) copy of the exclude list again - the caller's list is not touched either way",
+  (S, "        exclude = list(exclude)\n    exclude.append(src.FN_STATE_POINT)", "        exclude = list(exclude)\n    num_patterns = len(exclude)\n    exclude.append(src.FN_STATE_POINT)"),
+  (S, "            deep=deep,\n        )\n\n    if doc_sync not in (DocSync.NO_SYNC, DocSync.COPY):", "            deep=deep,\n        )\n    del exclude[num_patterns:]\n\n    if doc_sync not in (DocSync.NO_SYNC, DocSync.COPY):"))
+v("b55-clone-through-proxy-wrapper", ["C13", "C15", "C04"], "the clone copies through a local wrapper that delegates to the proxy's copytree",
+  (S, "    def _clone_or_sync(src_job):\n        \"\"\"Clone a job if it does not exist, or sync if it exists.\"\"\"\n        try:\n            destination.clone(src_job, copytree=proxy.copytree)",
+      "    def _copytree(src, dst):\n        return proxy.copytree(src, dst)\n\n    def _clone_or_sync(src_job):\n        \"\"\"Clone a job if it does not exist, or sync if it exists.\"\"\"\n        try:\n            destination.clone(src_job, copytree=_copytree)"))
+v("b56-exclude-copy-unconditional", ["C13", "C15"], "the exclude list is copied with a comprehension instead of list()",
+  (S, "        exclude = list(exclude)\n", "        exclude = [p for p in exclude]\n"))
+v("b57-main-job-init-local", ["C12", "C02"], "CLI: the create flag is bound to a local first",
+  ("signac/__main__.py", "    if args.create:\n        job.init()\n    if args.path:", "    create = args.create\n    if create:\n        job.init()\n    if args.path:"))
+v("b58-setter-register-after-lock", ["C08", "C04", "C03"], "registration kept after the re-key, new state point bound to a local",
+  (J, "        self._project._register(self.id, new_statepoint)\n\n    @property\n    def sp(self):", "        new_id = self.id\n        self._project._register(new_id, new_statepoint)\n\n    @property\n    def sp(self):"))
+v("b59-update-mtime-stat", ["C14", "C13"], "FileSync.update spelled with os.stat (follows links like getmtime)",
+  (S, "os.path.getmtime(src.fn(fn)) > os.path.getmtime(dst.fn(fn))", "os.stat(src.fn(fn)).st_mtime > os.stat(dst.fn(fn)).st_mtime"))
+v("b60-check-validity-tuple", ["C16", "C17"], "paths materialised as a tuple",
+  (IE, "    paths = list(paths)\n", "    paths = tuple(paths)\n"))
+v("b61-update-statepoint-local-copy", ["C04"], "the copied state point bound under another name",
+  (J, "        statepoint = self.statepoint()\n        if not overwrite:\n            for key, value in update.items():\n                if statepoint.get(key, value) != value:",
+      "        current = self.statepoint()\n        statepoint = current\n        if not overwrite:\n            for key, value in update.items():\n                if statepoint.get(key, value) != value:"))
+v("b62-linked-view-path-local", ["C17"], "job path bound to a local before being stored",
+  (LV, "        links[paths] = job.path\n", "        target = job.path\n        links[paths] = target\n"))
+v("b63-near-defaults-tuple", ["C06"], "$near default tolerances bound through a tuple",
+  (SI, "        rel_tol, abs_tol = 1e-9, 0.0  # default values", "        defaults = (1e-9, 0.0)\n        rel_tol, abs_tol = defaults"))
+
+v("b64-near-padding-correct", ["C06"], "$near argument padded with the defaults that are missing (correct alignment)",
+  (SI, """        rel_tol, abs_tol = 1e-9, 0.0  # default values
+        if isinstance(argument, (list, tuple)):
+            if len(argument) == 1:
+                argument = argument[0]
+            elif len(argument) == 2:
+                argument, rel_tol = argument
+            elif len(argument) == 3:
+                argument, rel_tol, abs_tol = argument
+            else:
+                err_msg = (
+                    "The argument of the $near operator must be a float or a list of floats with "
+                    "length 1, 2, or 3."
+                )
+                raise ValueError(err_msg)
+""", """        defaults = (None, 1e-9, 0.0)
+        if not isinstance(argument, (list, tuple)):
+            argument = (argument,)
+        if not 1 <= len(argument) <= 3:
+            err_msg = (
+                "The argument of the $near operator must be a float or a list of floats with "
+                "length 1, 2, or 3."
+            )
+            raise ValueError(err_msg)
+        argument, rel_tol, abs_tol = (*argument, *defaults[len(argument):])
+"""))
+
+
 def main():
     os.makedirs(OUT, exist_ok=True)
     for f in os.listdir(OUT):
